@@ -74,6 +74,8 @@ def gen_world(t, prop):
     spec["prince"] = [[n, p] for n, p in zip(names, pr)]
     flags = {"skip_brute": t.chance(1, 4), "skip_case": t.chance(1, 4),
              "folder": "Prince" if t.chance(1, 6) else "Grammar"}
+    from .. import session
+    flags["queue_size"] = t.choice(session.QUEUE_SIZES)
     if flags["folder"] == "Prince":
         flags["skip_brute"] = False      # prince_ling.py, the only user of that folder, never sets it
     return spec, flags
@@ -146,7 +148,7 @@ def run_one(tape, tier, prop):
     try:
         with guesser.streams(out, err):
             pcfg = guesser.load(rdir, flags["skip_brute"], flags["skip_case"], flags["folder"])
-            hist = guesser.exhaust(pcfg, max_pops=nlang * 2 + 10, inspect=inspect)
+            hist = guesser.exhaust(pcfg, max_pops=nlang * 2 + 10, inspect=inspect, queue_size=flags["queue_size"])
     except Exception as e:
         if flags["skip_brute"] and not ref.base:
             res.rejected = "skip_brute_M_only(C14)"
@@ -199,7 +201,7 @@ def run_one(tape, tier, prop):
         try:
             with guesser.streams():
                 pcfg2 = guesser.load(rdir, flags["skip_brute"], flags["skip_case"], flags["folder"])
-                hist2 = guesser.exhaust(pcfg2, max_pops=nlang * 2 + 10, expand=False)
+                hist2 = guesser.exhaust(pcfg2, max_pops=nlang * 2 + 10, expand=False, queue_size=flags["queue_size"])
             a = [(h["pt"], h["prob"]) for h in hist]
             b = [(h["pt"], h["prob"]) for h in hist2 if not h.get("overflow")]
             if a != b:
@@ -224,8 +226,14 @@ def run_one(tape, tier, prop):
             if prop == "C01":
                 pass
     if heap_problems:
+        # the queue-state invariants describe this queue design (everything not yet emitted hangs below a queued entry);
+        # a queue that parks entries elsewhere and brings them back would break them and still emit the language exactly
+        # once.  So they only localise a failure the multiset comparison has established; alone they are a probe.
         k, n, what = heap_problems[0]
-        res.violate("C02", k, {"after_pop": n, "entry": what})
+        if emitted != lang or overflow:
+            res.violate("C02", k, {"after_pop": n, "entry": what})
+        else:
+            res.stats["probe_queue_invariant_broken_but_language_exact"] += 1
     # parents with exactly equal probability (non-trivial measure for C02)
     tie_parents = 0
     if nlang <= 1500:
